@@ -562,6 +562,7 @@ type mpscCfg struct {
 	PerProd   int    `json:"per_producer"`
 	DelayPerM int    `json:"delay_per_mille"`
 	SlowCons  bool   `json:"slow_consumer"`
+	FullOnly  bool   `json:"consumer_polls_only_a_full_queue"` // producers keep retrying refused offers meanwhile
 }
 
 type mpscElem struct {
@@ -619,6 +620,10 @@ func runMPSC(cfg mpscCfg) (violation string, st map[string]int64) {
 		for {
 			if s := q.Size(); s > maxSize {
 				maxSize = s
+			}
+			if cfg.FullOnly && int(producersDone.Load()) < cfg.Producers && q.Size() < uint64(capacity) {
+				runtime.Gosched()
+				continue
 			}
 			e := q.TryPop()
 			if e == nil {
@@ -873,6 +878,16 @@ func RunC16(col *core.Collector, tier, variant string, seed uint64, shard, nshar
 			PerProd:   50 + r.Intn(400),
 			DelayPerM: []int{0, 20, 100, 300}[r.Intn(4)],
 			SlowCons:  r.Chance(1, 2),
+		}
+		if i%3 == 0 {
+			// tiny queue that is kept full: every growth step and the wrap of the last chunk happen
+			// while producers retry refused offers
+			cfg.Max = []uint32{4, 8, 8, 16}[r.Intn(4)]
+			cfg.Init = []uint32{2, 4}[r.Intn(2)]
+			cfg.Producers = 2 + r.Intn(6)
+			cfg.PerProd = 200 + r.Intn(600)
+			cfg.FullOnly = true
+			cfg.SlowCons = false
 		}
 		if cfg.Max < cfg.Init {
 			cfg.Init = 2 + uint32(r.Intn(int(cfg.Max)-1))
